@@ -65,6 +65,36 @@ Section Model.
     | VGroup _ => buf   (* not reached: groups are handled by appendTextAttr *)
     end.
 
+  (** appendTextSource, transcribed as is.  The loop
+        for idx = len(f.File) - 1; idx > 0; idx-- { if f.File[idx] == '/' { if first { break }; first = true } }
+      leaves idx at the second-last '/', or at 0 when it runs out (index 0 is never looked at),
+      or at -1 for the empty path; the text is f.File[idx+1:] + ":" + line.  [src_loop] returns idx
+      for a non-empty path.  Oddity kept on purpose: a relative path with fewer than two '/'
+      loses its first character ([source_cut "a/b.go" = "/b.go"], [source_cut "main.go" = "ain.go"]). *)
+  Fixpoint src_loop (file : bytes) (idx : nat) (first : bool) : nat :=
+    match idx with
+    | O => O
+    | S i =>
+      if nth idx file 0 =? 47 then (if first then idx else src_loop file i true)
+      else src_loop file i first
+    end.
+  Definition source_cut (file : bytes) : bytes :=
+    match file with
+    | [] => []
+    | _ :: _ => skipn (S (src_loop file (length file - 1) false)) file
+    end.
+  Definition append_text_source (buf file line : bytes) : bytes :=
+    append_text_string buf (source_cut file ++ 58 :: line).
+
+  (** hypothesis of the theorem on the record's frame: on this path the Go loop yields the
+      path's last two elements (true for every path with a leading '/' or at least two '/',
+      and for the empty path of PC = 0; false exactly for the oddity above) *)
+  Definition src_agrees (r : record) : bool :=
+    match src r with
+    | Some s => bytes_eqb (source_cut (fst s)) (last_two (fst s))
+    | None => true
+    end.
+
   Definition nonempty_len (n : nat) : bool := match n with O => false | S _ => true end.
 
   (** appendTextAttr(buf, Attr{key, v}, prefix): returns the buffer and the prefix
@@ -119,7 +149,7 @@ Section Model.
     let b := k_time ++ [61] ++ time_txt r in
     let b := b ++ [32] ++ k_level ++ [61] ++ level_text (lvl r) in
     let b := match src r with
-             | Some s => append_text_string (b ++ [32] ++ k_source ++ [61]) s
+             | Some s => append_text_source (b ++ [32] ++ k_source ++ [61]) (fst s) (snd s)
              | None => b
              end in
     let b := append_text_string (b ++ [32] ++ k_msg ++ [61]) (msg r) in
